@@ -21,6 +21,8 @@ typedef struct {
   int st, op;
   void *obj, *obj2;
   long grp;
+  vs_fp_t fp[VS_MAXFP];
+  int nfp; /* -1: not set (derive from op), 0..: explicit */
   int jt;
   volatile int go;
   pthread_t real;
@@ -52,6 +54,7 @@ int vs_nraces = 0;
 uint64_t vs_hashes[VS_MAXPTS];
 uint64_t (*vs_obs_hash)(void) = 0;
 long (*vs_group_of)(int op, void *obj) = 0;
+int (*vs_fp_of)(int op, void *obj, vs_fp_t out[VS_MAXFP]) = 0;
 void (*vs_on_fatal)(int code) = 0;
 static int Z[VS_MAXT]; /* sleep set */
 
@@ -121,7 +124,25 @@ static long grp_of(int t) {
   if (op == OP_LOCK || op == OP_BCAST || op == OP_SIGNAL) return vs_group_of ? vs_group_of(op, T[t].obj) : -1;
   return -1;
 }
-static int indep(long g1, long g2) { return g1 != -1 && g2 != -1 && g1 != g2; }
+/* footprint of thread t's pending transition */
+static int fp_of(int t, vs_fp_t out[VS_MAXFP]) {
+  int op = T[t].op;
+  if (op == OP_POINT && T[t].nfp >= 0) { memcpy(out, T[t].fp, sizeof(vs_fp_t) * T[t].nfp); return T[t].nfp; }
+  if ((op == OP_LOCK || op == OP_BCAST || op == OP_SIGNAL || op == OP_POINT) && vs_fp_of) {
+    int n = vs_fp_of(op, T[t].obj, out);
+    if (n >= 0) return n;
+  }
+  out[0].obj = -1; out[0].write = 1; /* create, join, start, unknown objects: dependent with everything */
+  return 1;
+}
+static int indep_fp(const vs_fp_t *a, int na, const vs_fp_t *b, int nb) {
+  for (int i = 0; i < na; i++)
+    for (int j = 0; j < nb; j++) {
+      if (a[i].obj < 0 || b[j].obj < 0) return 0;
+      if (a[i].obj == b[j].obj && (a[i].write || b[j].write)) return 0;
+    }
+  return 1;
+}
 
 static uint64_t mix(uint64_t h, uint64_t v) {
   h ^= v + 0x9e3779b97f4a7c15ULL + (h << 6) + (h >> 2);
@@ -195,9 +216,13 @@ static void reschedule(void) {
       }
       for (int i = 0; i < ci; i++) Z[cand[i]] = 1;
       nx = cand[ci];
-      long g = grp_of(nx);
+      vs_fp_t fa[VS_MAXFP], fb[VS_MAXFP];
+      int na = fp_of(nx, fa);
       for (int t = 0; t < nthr; t++)
-        if (Z[t] && (t == nx || !indep(grp_of(t), g))) Z[t] = 0;
+        if (Z[t]) {
+          int nb = fp_of(t, fb);
+          if (t == nx || !indep_fp(fa, na, fb, nb)) Z[t] = 0;
+        }
     } else {
       /* spurious wake-up candidates come after the normal ones */
       int spur[VS_MAXT], ns = 0;
@@ -240,6 +265,7 @@ static void point(int op, void *obj, long grp) {
   T[me].op = op;
   T[me].obj = obj;
   T[me].grp = grp;
+  if (op != OP_POINT || obj != (void *)&T[me].fp) T[me].nfp = -1;
   reschedule();
   T[me].op = OP_NONE;
 }
@@ -274,6 +300,15 @@ int vs_self(void) { return my_tid; }
 void vs_point(int kind, long group) {
   (void)kind;
   if (modelled()) point(OP_POINT, 0, group);
+}
+void vs_point_fp(int kind, long group, const vs_fp_t *fp, int nfp) {
+  (void)kind;
+  if (!modelled()) return;
+  int me = cur;
+  if (nfp > VS_MAXFP) nfp = VS_MAXFP;
+  memcpy(T[me].fp, fp, sizeof(vs_fp_t) * nfp);
+  T[me].nfp = nfp;
+  point(OP_POINT, (void *)&T[me].fp, group);
 }
 
 /* ---- happens-before monitor ----------------------------------------------------------------- */
@@ -360,7 +395,7 @@ static int model_wait(pthread_cond_t *c, pthread_mutex_t *m) {
   int me = cur;
   /* scheduling point while the mutex is still held: another thread that touches the predicate WITHOUT the
      mutex (and notifies) can run between the waiter's predicate test and its parking - the lost wake-up window */
-  point(OP_POINT, c, vs_group_of ? vs_group_of(OP_LOCK, m) : -1);
+  point(OP_POINT, m, vs_group_of ? vs_group_of(OP_LOCK, m) : -1);
   int i = mu_index(m);
   MU[i].owner = -1;
   memcpy(MU[i].vc, VC[me], sizeof MU[i].vc);
